@@ -38,6 +38,17 @@ def function_bodies(src: str) -> Dict[str, str]:
     return out
 
 
+def delegate(body: str, fb: Dict[str, str]) -> str:
+    """a handler that only forwards to another member function (`return Helper(...);`) is read as that function"""
+    for _ in range(3):
+        m = re.fullmatch(r"\s*return\s+(\w+)\s*\(([^;]*)\)\s*;\s*", body)
+        if m and m.group(1) in fb and m.group(1) not in ("_Decode", "_Encode"):
+            body = fb[m.group(1)]
+        else:
+            break
+    return body
+
+
 def grammar(body: str, side: str) -> str:
     """transfer sequence of a handler body, read left to right"""
     toks = []
@@ -84,13 +95,31 @@ def grammar(body: str, side: str) -> str:
         elif m.group(13):
             cur.append(("insert",))
         elif m.group(14):
-            cur.append(("W", "bitsize"))
+            cur.append(("W", "enumwidth"))
+
+    def width(tok: str) -> str:
+        """width token -> what it denotes (the local's definition), so that renaming a local is not a difference"""
+        tok = tok.strip()
+        if re.fullmatch(r"\d+", tok) or tok == "enumwidth":
+            return tok
+        if re.fullmatch(r"\w+\.\w+", tok):
+            return "enumwidth" if re.search(r"enums\.at\(", body) else tok
+        if re.fullmatch(r"\w+", tok):
+            d = re.search(r"\b(?:auto|int|unsigned|std::\w+|u?int\d+_t|size_t)\s+%s\s*=\s*([^;]*);" % re.escape(tok), body)
+            if d:
+                ex = re.sub(r"\s+", "", d.group(1))
+                if "std::stoi(type.name.substr(1))" in ex:
+                    return "width(type)"
+                if re.search(r"enums\.at\(", body):
+                    return "enumwidth"
+                return ex[:40]
+        return tok
 
     def fmt(es):
         s = []
         for e in es:
             if e[0] == "W":
-                s.append("W(%s)" % e[1])
+                s.append("W(%s)" % width(e[1]))
             elif e[0] == "loop":
                 s.append("Loop(%s){%s}" % (e[1], fmt(e[2])))
             elif e[0] == "if":
@@ -110,14 +139,14 @@ def grammar(body: str, side: str) -> str:
 
 
 CANON_DEC = {
-    "DecodeUnsigned": "W(size)", "DecodeSigned": "W(size)", "DecodeFloat32": "W(32)", "DecodeFloat64": "W(64)",
+    "DecodeUnsigned": "W(width(type))", "DecodeSigned": "W(width(type))", "DecodeFloat32": "W(32)", "DecodeFloat64": "W(64)",
     "DecodeString": "W(32) Loop(count){W(8)}", "DecodeArray": "Loop(size(type)){Rec}", "DecodeDynamicArray": "W(32) Loop(count){Rec}",
-    "DecodeOptional": "W(8) If(present){Rec}", "DecodeStruct": "Loop(fields){Rec}", "DecodeEnum": "W(bitsize)",
+    "DecodeOptional": "W(8) If(present){Rec}", "DecodeStruct": "Loop(fields){Rec}", "DecodeEnum": "W(enumwidth)",
 }
 CANON_ENC = {
-    "EncodeUnsigned": "W(size)", "EncodeSigned": "W(size)", "EncodeFloat": "W(32)", "EncodeDouble": "W(64)",
+    "EncodeUnsigned": "W(width(type))", "EncodeSigned": "W(width(type))", "EncodeFloat": "W(32)", "EncodeDouble": "W(64)",
     "EncodeString": "W(32) Loop(count){W(8)}", "EncodeArray": "Loop(size(type)){Rec}", "EncodeDynamicArray": "W(32) Loop(count){Rec}",
-    "EncodeOptional": "If(present){W(8)} Else{W(8) Rec}", "EncodeStruct": "Loop(fields){Rec}", "EncodeEnum": "W(bitsize)",
+    "EncodeOptional": "If(present){W(8)} Else{W(8) Rec}", "EncodeStruct": "Loop(fields){Rec}", "EncodeEnum": "W(enumwidth)",
 }
 
 
@@ -168,7 +197,7 @@ def run(eng, rep) -> None:
             continue
         params = fb.get(h + "#params", "")
         rep.check("Buffer&" in params.replace(" ", ""), "R13.2", TPL, h, "(…, Buffer& buffer)", "shares the caller's bit cursor", "decode handler takes the buffer by value: the caller's cursor does not advance")
-        g = grammar(body, "dec")
+        g = grammar(delegate(body, fb), "dec")
         want = CANON_DEC.get(h)
         n += 1
         if want is None:
@@ -176,8 +205,23 @@ def run(eng, rep) -> None:
         else:
             rep.check(g == want, "R13.2", TPL, h, g or "<nothing>", "= canonical %s" % want, "run-time decoder performs [%s], the static codec performs [%s]" % (g, want))
     rep.floor("R13.2", "decode handlers", n, 10)
-    dsig = fb.get("DecodeSigned", "")
-    rep.check(bool(re.search(r"GetWord\(\s*size\s*,\s*true", dsig)), "R13.2", TPL, "DecodeSigned", "GetWord(size, true)", "sign extension requested", "signed fields are read without sign extension")
+    hs = chains["_Decode"].get("signed", "DecodeSigned")
+    dsig = fb.get(hs, "")
+    fwd = re.fullmatch(r"\s*return\s+(\w+)\s*\(([^;]*)\)\s*;\s*", dsig)
+    if re.search(r"GetWord\(\s*\w+\s*,\s*true", dsig):
+        rep.ok("R13.2", TPL, hs, "GetWord(size, true)", "sign extension requested")
+    elif fwd and fwd.group(1) in fb:
+        helper = fb[fwd.group(1)]
+        hp = [x.strip().split()[-1].lstrip("&*") for x in fb.get(fwd.group(1) + "#params", "").split(",") if x.strip()]
+        gm = re.search(r"GetWord\(\s*\w+\s*,\s*(\w+)", helper)
+        args = [a.strip() for a in fwd.group(2).split(",")]
+        if gm and gm.group(1) in hp and hp.index(gm.group(1)) < len(args):
+            a = args[hp.index(gm.group(1))]
+            rep.check(a == "true", "R13.2", TPL, hs, "%s(..., %s) -> GetWord(size, %s)" % (fwd.group(1), a, gm.group(1)), "sign extension requested through the helper", "signed fields are read without sign extension")
+        else:
+            rep.undecided("R13.2", TPL, hs, "sign extension", "handler forwards to %s; sign argument not resolved" % fwd.group(1))
+    else:
+        rep.violation("R13.2", TPL, hs, "GetWord(size, true)", "signed fields are read without sign extension")
     json_rules(eng, rep, fb, chains)
     # ---- R13.3 ---------------------------------------------------------------------
     for tag, h in sorted(chains["_Encode"].items()):
@@ -185,7 +229,7 @@ def run(eng, rep) -> None:
         if body is None:
             rep.violation("R13.3", TPL, h, "handler for tag %s" % tag, "dispatch names a handler that is not defined")
             continue
-        g = grammar(body, "enc")
+        g = grammar(delegate(body, fb), "enc")
         if "Insert" in g:
             rep.violation("R13.3", TPL, h, "buffer.Insert(encoded…)", "sub-encodings are produced in private, byte-padded buffers and concatenated with Insert (which appends whole bytes and does not use the bit cursor): a field whose width is not a multiple of 8 is padded to a byte boundary, unlike the static codec")
         else:
@@ -207,6 +251,7 @@ def run(eng, rep) -> None:
             rep.violation("R13.4", TPL, h, "bitsize = %s" % e, "enum width is a float log formula: ceil(log2(max+1)) is 0 for an enum whose largest value is 0, the static codec (get_packed_size) uses 1 bit")
         else:
             rep.undecided("R13.4", TPL, h, "bitsize = %s" % e, "width formula not recognised")
+    loader_rules(eng, rep, src)
     # ---- R13.5 ---------------------------------------------------------------------
     for h in ("DecodeStruct", "EncodeStruct"):
         body = fb.get(h, "")
@@ -236,6 +281,7 @@ def json_rules(eng, rep, fb, chains) -> None:
         body = fb.get(h)
         if body is None:
             return None, None
+        body = delegate(body, fb)
         rets = re.findall(r"return\s+([^;]+);", body)
         rets = [r for r in rets if "nullopt" not in r]
         if not rets:
@@ -291,3 +337,67 @@ def json_rules(eng, rep, fb, chains) -> None:
                           "one codec builds the JSON by push_back into a default-constructed json (null when there are no elements), the other returns a vector (always an array): an empty dynamic array decodes to different values")
         else:
             rep.undecided("R13.6", TPL, h, site, "categories differ (%s / %s) in a way not decided" % (dc, sc1))
+
+
+def _block(src: str, i: int) -> int:
+    """index just after the block whose '{' is at src[i]"""
+    depth, j = 0, i
+    while j < len(src):
+        if src[j] == "{":
+            depth += 1
+        elif src[j] == "}":
+            depth -= 1
+            if depth == 0:
+                return j + 1
+        j += 1
+    return len(src)
+
+
+def loader_rules(eng, rep, src: str) -> None:
+    """R13.4 (loader part): what LoadBinarySchema computes for one declaration depends on that declaration only.
+    A scalar declared before one of the loader's top-level loops over declarations and assigned inside it carries
+    state from the declarations seen earlier (e.g. a running maximum that is never reset)."""
+    m = re.search(r"\bLoadBinarySchema\s*\([^)]*\)\s*\{", src)
+    if not m:
+        rep.undecided("R13.4", TPL, "LoadBinarySchema", "loader body", "not found")
+        return
+    end = _block(src, m.end() - 1)
+    body = src[m.end():end - 1]
+    # top-level range-for loops
+    pos, depth, n_loops = 0, 0, 0
+    class _M:  # minimal match-like record
+        def __init__(self, start, end, a, b):
+            self._s, self._e, self._g = start, end, (a, b)
+        def start(self): return self._s
+        def end(self): return self._e
+        def group(self, i): return self._g[i - 1]
+    loops = []
+    for fm in re.finditer(r"\bfor\s*\(", body):
+        i2, d = fm.end(), 1
+        while i2 < len(body) and d:
+            d += {"(": 1, ")": -1}.get(body[i2], 0)
+            i2 += 1
+        hdr = body[fm.end():i2 - 1]
+        rest = re.match(r"\s*\{", body[i2:])
+        if ";" in hdr or ":" not in hdr or not rest:
+            continue
+        a, b = hdr.split(":", 1)
+        loops.append(_M(fm.start(), i2 + rest.end(), a, b))
+    for lm in loops:
+        # nesting depth of this loop inside the loader body
+        pre = body[:lm.start()]
+        if pre.count("{") - pre.count("}") != 0:
+            continue
+        n_loops += 1
+        lend = _block(body, lm.end() - 1)
+        lbody = body[lm.end():lend - 1]
+        assigned = set(re.findall(r"(?<![\w.>])([A-Za-z_]\w*)\s*(?:[+\-|&*]?=(?!=)|\+\+|--)", lbody)) | set(re.findall(r"(?:\+\+|--)([A-Za-z_]\w*)", lbody))
+        for v in sorted(assigned):
+            decl_re = r"(?:auto|bool|int|unsigned|float|double|size_t|std::[\w:]+(?:<[^;=]*>)?|u?int\d+_t|const\s+auto&?)\s+%s\b" % re.escape(v)
+            if re.search(decl_re, lbody):
+                continue
+            if not re.search(decl_re, pre):
+                continue  # member / not a local of the loader
+            rep.violation("R13.4", TPL, "LoadBinarySchema", "`%s` declared before `for (%s :%s)` and assigned inside it" % (v, lm.group(1).strip()[:30], lm.group(2).strip()[:40]),
+                          "a value computed while loading one declaration is carried over to the following ones (never reset): e.g. a running maximum makes every later enum as wide as the widest enum seen so far, unlike the static codec")
+    rep.ok("R13.4", TPL, "LoadBinarySchema", "%d top-level loops over declarations scanned" % n_loops, "no scalar carried from one declaration to the next") if n_loops else rep.undecided("R13.4", TPL, "LoadBinarySchema", "loops over declarations", "none recognised")
